@@ -1,13 +1,19 @@
-(* C14 — importing one bundled grammar never changes another.   PARTIAL PROOF.
-   Over the loader model run on the module descriptions TRANSLATED from /repo (texts, import lists, flag statements):
-   kernel-evaluated for (a) every module imported alone vs all modules imported, (b) four further orders of all
-   modules (reversed, two rotations, evens-then-odds), (c) 36 ordered pairs of modules: in each case every class of
-   every module involved, and the core and meta classes, have identical configuration (rule spellings, definitions
-   with first-match flags, exclusions).  NOT proved: the statement for ALL import sets and orders (it would need a
-   frame/commutation theorem about the loader up to renaming of rule ids); the remaining orders are sampled by the
-   correspondence harness on the real library. *)
+(* C14 — importing one bundled grammar never changes another.
+   Over the loader model run on the module descriptions TRANSLATED from /repo (texts, import lists, flag statements).
+   THEOREM C14 (all import sets, all orders): for EVERY list ms of bundled module names (any subset, any order,
+   repetitions allowed; Python imports the dependencies of each first), the import succeeds and every class of every
+   module that got imported — and the core class — has exactly the configuration (rule spellings, definitions with their
+   first-match flags, exclusions; canonical, independent of rule ids) it has when all modules are imported in the
+   standard order, which C14_partial_alone_vs_all shows equal to the module imported alone.  Proved by a frame theorem
+   for load_class over ALL registries (LoadFrame1-2), an abstract rid-free loader that the concrete one simulates
+   (LoadAbs, LoadSim1-3), order independence (LoadOrder, LoadDet), and side conditions on the bundled data discharged by
+   verified boolean checks (LoadBundled): no core-name clash, imports are foreign, flag statements are local
+   (flags_local: the guarded loop of rfc3987 is, an unguarded one is not — LoadSharp.unguarded_flag_loop_refuted).
+   The bound 192 on the length of ms is an artefact of the fuel of dep_closure in the model, not of the library.
+   The earlier kernel-evaluated samples (C14_partial_...) are kept. *)
 From Coq Require Import String List NArith.
-From ABNF Require Import Base Engine Registry Loader Bundled TablesAll L_C14.
+From ABNF Require Import Base Engine Registry GenTypes Loader GenBundled Bundled TablesAll L_C14 LoadOrder LoadBundled LoadSharp.
+Import ListNotations.
 
 Theorem C14_partial_alone_vs_all : alone_vs_all = true.
 Proof. exact c14_alone_vs_all. Qed.
@@ -20,3 +26,32 @@ Print Assumptions C14_partial_orders.
 Theorem C14_partial_pairs_in_both_orders : pair_orders_ok = true.
 Proof. exact c14_pairs. Qed.
 Print Assumptions C14_partial_pairs_in_both_orders.
+
+(* ---- all import sets and orders ---------------------------------------------------------------------------------- *)
+Theorem C14 : forall ms, (forall m, In m ms -> In m module_names) -> length ms <= 192 ->
+  exists R, r_order ms = Some R /\ same_class R R_all 0%N = true /\
+            forall m, In m (dep_closure 400 ms []) -> same_module R R_all m = true.
+Proof. exact C14_all_orders. Qed.
+Print Assumptions C14.
+
+(* at the level of classes: any duplicate-free list of bundled classes in which every import source comes earlier *)
+Theorem C14_any_class_order : forall L, (forall g, In g L -> In g bundled) -> dep_ok bundled [] L ->
+  exists R, load_classes bundled L (r_boot tt) = Some R /\ same_class R R_all 0%N = true /\
+            forall g c, In g L -> cls_of bundled (gmod g) (gcls g) = Some c -> same_class R R_all c = true.
+Proof. exact C14_class_orders. Qed.
+Print Assumptions C14_any_class_order.
+
+Theorem C14_two_orders_agree : forall L1 L2,
+  (forall g, In g L1 -> In g bundled) -> (forall g, In g L2 -> In g bundled) ->
+  dep_ok bundled [] L1 -> dep_ok bundled [] L2 ->
+  exists R1 R2, load_classes bundled L1 (r_boot tt) = Some R1 /\ load_classes bundled L2 (r_boot tt) = Some R2 /\
+    same_class R1 R2 0%N = true /\
+    forall g c, In g L1 -> In g L2 -> cls_of bundled (gmod g) (gcls g) = Some c -> same_class R1 R2 c = true.
+Proof. exact C14_two_class_orders. Qed.
+Print Assumptions C14_two_orders_agree.
+
+(* the flag side condition is sharp: rfc3987 with an UNGUARDED first-match loop fails flags_local, and loading it after
+   rfc3986 changes the configuration of the rfc3986 class (the defect the guarded loop repairs) *)
+Theorem C14_unguarded_flag_loop_refuted : sharp_check = true.
+Proof. exact unguarded_flag_loop_refuted. Qed.
+Print Assumptions C14_unguarded_flag_loop_refuted.
